@@ -53,6 +53,11 @@ CHECKS.update({
          'Generated schemas x near-exhaustive pair enumeration against the reference signing relation; hundreds (quick) to >10^4 (thorough) schemas x up to ~9000 pairs.',
          'Trusts pbt/refs/lvs_ref.py (can_sign).', '6/C12'),
 })
+CHECKS.update({
+ 'C13': ('Hypothesis-generated valid schemas with every static error kind injected at every position (must raise SemanticError), skeleton-acyclic valid schemas (must compile/load), and every single-field corruption of compiled models on the object and through bytes, classified by an independent implementation of the six documented sanity rules; accepted models queried under a sys.monitoring line budget',
+         'Fault-style enumeration per generated schema: all injection positions / all single-field corruptions are enumerated for each generated schema; the schemas themselves are sampled.',
+         'Trusts the independent sanity-rule classifier and skeleton-acyclicity test in pbt/checks/c13_lvs_sanity.py; line budget 400k lines per query.', '6/C13'),
+})
 NOT_YET = {}
 def main():
     props = [json.loads(l) for l in open(os.path.join(ROOT, 'properties.jsonl'))]
